@@ -69,12 +69,39 @@ def run(ctx):
                'concatenation no longer equals concatenating the encodings'
                % (short(badr_[0].value, 40) if badr_ and badr_[0].value is not None else 'nothing', sorted(accs_)),
                construct='unicode_to_latex: result object')
+    # ---- R04q: the callable compiled for a rule is that rule's own
+    ctx.rule('R04q', 'no function object created in a loop (lambda / nested def) that reads the loop\'s variable outlives the '
+                     'iteration without freezing it: the callable compiled for a rule calls that rule, not the last one of '
+                     'the list (grules.late_binding_closures; the rule is exercised on a built-in example on every run)', 1)
+    from .. import grules as _gr2
+    from ..core import set_parents as _sp
+    ex_ = ast.parse('def f(rules, out):\n    for r in rules:\n        g = lambda s: r.rule(s)\n        out.append(g)\n')
+    _sp(ex_)
+    if len(list(_gr2.late_binding_closures(ex_.body[0]))) != 1:
+        raise AnalysisError('R04q: the late-binding rule no longer fires on its built-in example')
+    n_lb = 0
+    for mod_ in repo.modules.values():
+        if not mod_.name.startswith('pylatexenc.latexencode'):
+            continue
+        for q_, f_ in sorted(mod_.functions.items()):
+            for cl_, nm_, lp_, esc_ in _gr2.late_binding_closures(f_):
+                n_lb += 1
+                ctx.refuted('R04q', mod_, cl_, '%s: the function created at line %d reads `%s`, which the loop at line %d '
+                            're-binds on every iteration, and is kept beyond the iteration (%s): when it is called, `%s` is '
+                            'the value of the last iteration -- every compiled rule calls the last rule of the list'
+                            % (q_, cl_.lineno, nm_, lp_.lineno, short(esc_, 60), nm_),
+                            construct='%s: closure over loop variable %s' % (q_, nm_))
+    ctx.holds('R04q', m, None, 'no closure over a loop variable outlives its iteration in pylatexenc.latexencode '
+                               '(built-in example flagged)', construct='late-binding closure scan', trivial=True)
     # ---- R04m (C13 R13h); the module-state rule of C09 is R04g above
     ctx.rule('R04m', 'nothing on the unknown-character path can raise except the fail policy: no library call that is '
                      'partial on characters (unicodedata.name without default) (C13 R13h)', 1)
     from . import c13 as _c13
     from .. import core as _core
     _core.run_proxied(ctx, _c13, 'R04m', ('R13h',))
+    ctx.rule('R04r', 'the encoder reads the input only at the current position or under an in-range test: no IndexError at the '
+                     'end of the input (C13 R13n)', 4)
+    _core.run_proxied(ctx, _c13, 'R04r', ('R13n',))
 
     return 'other', (
         'Decides the structural conditions of the documented encoder semantics: the rule sequence '
